@@ -320,7 +320,10 @@ pub struct RunLog {
 
 fn parse_real(expr: &str, step: usize) -> Result<CronSchedule, Fail> {
     let e = expr.to_string();
-    let out = guarded(move || CronSchedule::parse(&e));
+    // both entry points build daemons (chosen by a hash of the expression and the step, so that
+    // replay is exact)
+    let via_fromstr = (fnv(expr.as_bytes()) ^ step as u64) % 2 == 1;
+    let out = guarded(move || if via_fromstr { e.parse::<CronSchedule>() } else { CronSchedule::parse(&e) });
     match out.result {
         Ok(Ok(s)) => Ok(s),
         Ok(Err(err)) => Err(Fail {
@@ -1028,6 +1031,7 @@ pub fn check(tier: &str, seed: u64) -> i32 {
         .set("reach", stats.counters_json("c17.reach."))
         .set("carry", stats.counters_json("c17.carry."))
         .set("unjudged", stats.counters_json("c17.unjudged."))
+        .set("reach_probes_at_zero", crate::report::probes_at_zero(&stats, &["c17.reach.clock_equals_last","c17.reach.clock_overtook_2plus_results","c17.reach.crossed_nonleap_century_february","c17.reach.result_is_feb29","c17.reach.three_calls_with_frozen_clock","c17.reach.last_ahead_of_clock","c17.fault.crash_restart.injected","c17.fault.clock_overtook_results.effective","c17.event.clone","c17.carry.year","c17.carry.month"]))
         .set("real_components", Json::s("all of astrolabe: cron.rs (parse, Iterator::next, Clone), datetime.rs, util/**"))
         .set("stubbed_components", Json::s("the leaf call SystemTime::now() (simulated CLOCK_REALTIME); nothing else"))
         .set("exhaustive", Json::Bool(false))
